@@ -7,7 +7,9 @@ Hand-over ops (`hand`, `handns`, `handnsf`) run the index model of the LAPACK ha
 of the harness.  Floating-point ops (`sym`, `nsd`, `nsf`) are decided by the harness oracle; the model only states the
 shape of the answer — except `sym d n cfq …` (double, closed form, n ≤ 3): there the *same generic model* is run over
 `Float` (IEEE double, operation order of the source) and its eigenvalues and eigenvectors, quantised to 2^-24 relative
-to the scale of the matrix and sign-normalised, must coincide with those of the C++ code. -/
+to the scale of the matrix and sign-normalised, must coincide with those of the C++ code.
+History ops (`nsq T C : seg;…`, `handnsq T C : seg;…`) run `nsStep` over the caller's two output containers of
+`DynamicMatrixHelp::eigenValuesNonSym`: shapes after every segment for real LAPACK, complete contents for the fake. -/
 open DV DV.C08
 
 namespace C08Drv
